@@ -354,3 +354,63 @@ pub fn tkhd(payload: &[u8]) -> Result<(u8, u32, u64), String> {
         _ => Err(format!("unsupported version {}", v)),
     }
 }
+
+/// Sample-table lookup semantics of ISO/IEC 14496-12 §8.6–8.7 evaluated on decoded tables (REFSPEC §4):
+/// for every sample 1..=N: (absolute offset, size, decode time, duration, composition offset, sync).
+pub fn locate_all(t: &Tables) -> Result<Vec<(u64, u32, u64, u32, i32, bool)>, String> {
+    let n = t.stsz_count as usize;
+    let sizes: Vec<u32> = if t.stsz_size != 0 { vec![t.stsz_size; n] } else { t.stsz_sizes.clone() };
+    if sizes.len() != n {
+        return Err("stsz size vector shorter than sample_count".into());
+    }
+    // chunk map
+    let nchunks = t.offsets.len();
+    let mut chunk_of: Vec<(usize, usize)> = vec![]; // per sample: (chunk index, index in chunk)
+    for (i, e) in t.stsc.iter().enumerate() {
+        let first = e.0 as usize;
+        let next = if i + 1 < t.stsc.len() { t.stsc[i + 1].0 as usize } else { nchunks + 1 };
+        for c in first..next {
+            for j in 0..e.1 as usize {
+                if chunk_of.len() < n {
+                    chunk_of.push((c - 1, j));
+                }
+            }
+        }
+    }
+    if chunk_of.len() != n {
+        return Err(format!("chunk map covers {} samples, stsz says {}", chunk_of.len(), n));
+    }
+    let mut deltas = vec![];
+    for (c, d) in t.stts.iter() {
+        for _ in 0..*c {
+            deltas.push(*d);
+        }
+    }
+    let mut cts = vec![];
+    if let Some((_, e)) = &t.ctts {
+        for (c, o) in e.iter() {
+            for _ in 0..*c {
+                cts.push(*o);
+            }
+        }
+    }
+    let mut out = vec![];
+    let mut dts = 0u64;
+    let mut k = 0usize;
+    while k < n {
+        let (c, j) = chunk_of[k];
+        let mut off = *t.offsets.get(c).ok_or("chunk beyond the offset table")?;
+        for q in (k - j)..k {
+            off += sizes[q] as u64;
+        }
+        let d = *deltas.get(k).ok_or("stts shorter than stsz")?;
+        let sync = match &t.stss {
+            Some(s) => s.contains(&(k as u32 + 1)),
+            None => true,
+        };
+        out.push((off, sizes[k], dts, d, cts.get(k).copied().unwrap_or(0), sync));
+        dts += d as u64;
+        k += 1;
+    }
+    Ok(out)
+}
